@@ -11,8 +11,9 @@ CONSTANTS
   WithNone = @NONE@
   UpUsages = @UPU@
   DownUsages = @DNU@
+  NoUser = NoUser
+  Absent = Absent
   AbsentReadsZero = TRUE
   RejectNonPositiveRate = TRUE
-INVARIANTS Emit TypeOK Persist ConsumersTotal
-PROPERTIES RejectedUnchanged ReadYourWrites DeletedGone UploadDecreases
+INVARIANTS Emit Persist GenNoPanic
 CHECK_DEADLOCK FALSE
